@@ -524,15 +524,13 @@ class BlockUploadStream(io.RawIOBase):
         try:
             response = self.sdo_client.read_response()
         except SdoCommunicationError:
+            response = None
+        if response is not None and response[0] & 0x7F == self._ackseq + 1:
+            self._ackseq += 1
+        else:
+            # Segment lost or wrong sequence number
             response = self._retransmit()
         res_command, = struct.unpack_from("B", response)
-        seqno = res_command & 0x7F
-        if seqno == self._ackseq + 1:
-            self._ackseq = seqno
-        else:
-            # Wrong sequence number
-            response = self._retransmit()
-            res_command, = struct.unpack_from("B", response)
         if self._ackseq >= self.blksize or res_command & NO_MORE_BLOCKS:
             self._ack_block()
         if res_command & NO_MORE_BLOCKS:
@@ -557,11 +555,15 @@ class BlockUploadStream(io.RawIOBase):
                     self._ackseq)
         end_time = time.time() + self.sdo_client.RESPONSE_TIMEOUT
         self._ack_block()
+        # The server answers the acknowledge with a new sub-block, starting with
+        # the segment after the acknowledged one and numbered from 1 again.
+        # Segments of the old sub-block that are still queued have higher numbers.
+        self._ackseq = 0
         while time.time() < end_time:
             response = self.sdo_client.read_response()
             res_command, = struct.unpack_from("B", response)
             seqno = res_command & 0x7F
-            if seqno == self._ackseq + 1:
+            if seqno == 1:
                 # We should be back in sync
                 self._ackseq = seqno
                 return response
